@@ -35,6 +35,13 @@ def programs(tier):
     progs.append(("in-place-fill", {
         "funcs": [mkfunc("R", calls=[call("D")], reads=["GL", "GD"], rich=False), mkfunc("D", kind="plain", reads=["GL"], rich=False)],
         "vars": {"GL": [1], "GD": {}}, "stmts": {"@fill_list": "GL.append(2)", "@fill_dict": "GD['k'] = 3"}}))
+    # a memento function and a plain function of ANOTHER package, both referenced from the root (and through a helper)
+    progs.append(("cross-package-siblings", {
+        "funcs": [mkfunc("R", calls=[call("G", "xpkg"), call("K", "xpkg"), call("P")], rich=False),
+                  mkfunc("P", kind="plain", calls=[call("K2", "xpkg"), call("G2", "xpkg")], rich=False),
+                  mkfunc("G", module="q", rich=False), mkfunc("K", kind="plain", module="q", rich=False),
+                  mkfunc("G2", module="q", rich=False), mkfunc("K2", kind="plain", module="q", rich=False)],
+        "vars": {}}))
     return progs
 
 
